@@ -479,7 +479,13 @@ impl Expression {
                 let signed = y.signed() && z.signed();
                 let width = y.width().max(z.width()).max(context_width);
 
-                let ret = if x.to_usize().unwrap_or(0) == 0 { z } else { y };
+                // True iff some bit is a known 1 (as the simulator and SV decide it):
+                // `to_usize` is None for x/z bits and for every value wider than 64 bits.
+                let is_true = match &x {
+                    Value::U64(x) => (x.payload & !x.mask_xz) != 0,
+                    Value::BigUint(x) => *x.payload != (&*x.payload & &*x.mask_xz),
+                };
+                let ret = if is_true { y } else { z };
                 let ret = ret.expand(width, signed).into_owned();
                 Some(ret)
             }
